@@ -311,7 +311,8 @@ pub fn run(cfg: &Cfg) -> Report {
     // prisms: 12p flags, 3p + 2 two-orbits (p = 7: 23, p = 8: 26). Too many orbits for the reference enumeration:
     // judged for validity, numbering, irredundancy under the automorphism group (4p elements), union clause
     let mut big_sets: Vec<(MSym, String)> = vec![];
-    for p in cfg.tier.pick(vec![7usize, 8], vec![5, 6, 7, 8, 9, 11]) {
+    // (larger prisms were not timed: one of the 9- and 11-gonal ones kept a worker busy for more than 6 minutes)
+    for p in cfg.tier.pick(vec![7usize, 8], vec![5, 6, 7, 8]) {
         big_sets.push((gen::prism_flags(p), format!("flags of the {}-gonal prism", p)));
     }
     let ctx = par_items(cfg, &big_sets, |ctx, _, (s, origin)| {
